@@ -48,6 +48,10 @@ CHECKS = [
     ("C10", "exploration", TECH_SCHED, "DESIGN.md 3 C10",
      "Partial claim: every proof the six protocols generate in fault-free simulated runs (all proof systems of the property, on real parameters, sessions and wire encoding, "
      "with leading-zero entropy injected) must be accepted; witnesses and sessions are those the protocols produce."),
+    ("C11", "fault_enumeration", "deterministic simulation with Byzantine prover nodes: a listed attack catalogue (one behaviour per verifier guard) in which the deviating "
+     "party runs the library's own provers on false statements or out-of-range witnesses inside real protocol runs", "DESIGN.md 3 C11, appendix C",
+     "Partial claim: for each guard in the catalogue the honest verifier must abort in the checking round and name the prover. Soundness against provers outside the "
+     "catalogue is not decided (it quantifies over all strategies)."),
     ("C12", "fault_enumeration", TECH_BYZ, "DESIGN.md 3 C12",
      "Every component and every index of every proof as carried by the protocols, perturbed in flight (+1, -1, random, swap with neighbour, zero; thorough walks the complete "
      "index range of the 258/163/13/12/11/10/6-element proofs): the consuming honest party must reject and name the sender. Statement/session substitution by mirror of "
@@ -79,9 +83,7 @@ NOT_APPLICABLE = [
             "alphabet and C20's reload (DESIGN.md section 4)"),
 ]
 
-PENDING = {
-    "C11": "attack catalogue (Byzantine prover nodes running the library's provers on false statements) not built yet in this session; not claimed until its driver is registered",
-}
+PENDING = {}
 
 
 def main():
